@@ -6,24 +6,40 @@ library did to the tree before):
 
   PhylogeneticDistanceMatrix.compile_from_tree   post: every entry of the finished matrix is read back through
       the public accessors and compared with vf.ref.leaf_paths on the spec: path length (None counts 0), number
-      of edges, node where the path turns; symmetry; zero self distance; set of mapped taxa; distances() lists.
+      of edges, node where the path turns; symmetry; zero self distance; set of mapped taxa; distances() lists;
+      the matrix refers to the tree's own taxon namespace.  One-leaf trees: zero self distance only.
   NodeDistanceMatrix.compile_from_tree           post: same three quantities for pairs of *nodes* (a node is its
-      own ancestor), oracle = ancestor chains on the spec.
+      own ancestor), oracle = ancestor chains on the spec (extra route of the first clause; both constructors;
+      every accessor x option combination on a few pairs).
   Tree.mrca                                      post: the returned node must be the deepest node of the tree (as
       it is at return) whose leaves include the whole query; None when a queried taxon is not on the tree.
       Judged only when a refresh was requested (is_bipartitions_updated=False) or the pre-hook verified that
       every edge's leafset bitmask equals the taxa below it (encoding current); otherwise recorded only.
+      The query arrives as list / tuple / set / frozenset / dict view / one-shot iterator / generator of taxa or
+      labels (also in the other case on a case-insensitive namespace) or as a bitmask (also with the bit of a
+      taxon that is not on the tree); the driver tells the hook which taxa a one-shot argument stands for.
   treemeasure.patristic_distance                 post: result == path length on the spec extracted BEFORE the call.
   nj_tree / upgma_tree                           post: judged by what they must reproduce when the workload declared
-      the input as the distances of a known generating tree S (additive by construction):
+      the input as the distances of a known generating tree S (additive by construction); both values of
+      is_weighted_edge_distances (edge counts = distances of S with unit lengths):
       (1) leaf set, (2) path matrix of the result == path matrix of S, (3) every split (UPGMA: rooted clade) of S
-      with positive summed length present with that length, (4) every other split of the result has ~zero length.
-      Tie- and polytomy-agnostic; zero-length internal edges of S count as contracted.
-  mean_pairwise_distance / mean_nearest_taxon_distance, distance(), __call__, distances(), sum_of_distances()
+      with positive summed length present with that length, (4) every other split of the result has ~zero length,
+      (5) the result lives in the matrix's taxon namespace and its leaves carry the matrix's own Taxon objects,
+      (6) UPGMA: is_rooted is True (a tree whose root counts); NJ: not flagged rooted,
+      (7) (1)-(4) again after result.encode_bipartitions() - the first use of the tree must not change it.
+      Tie- and polytomy-agnostic; zero-length internal edges of S count as contracted.  NJ verdicts only when S has
+      positive internal edge lengths (the statement's proviso); other inputs are driven and recorded.
+  mean_pairwise_distance / mean_nearest_taxon_distance, distances(), sum_of_distances()
       compared in the driver with the docstring formulas evaluated on the oracle entries
-      (all four weighted/normalised settings, taxon filters).
-  write_csv / from_csv                           round trip: the text honours the requested delimiter, the matrix read
-      back has the oracle's entries, is usable (summaries, a second write) and feeds NJ / UPGMA like the original.
+      (all four weighted/normalised settings, taxon filters);  __call__ / distance / patristic_distance /
+      path_edge_count under EVERY weighted x normalised combination their signatures allow.
+  write_csv / from_csv                           sink and source are independent dimensions (text buffer, path, open
+      text file - all nine combinations); the text is parsed with CPython's csv module and its header, row names and
+      every cell (diagonal, both triangles) are compared with the oracle table; the matrix read back has the oracle's
+      entries and the namespace / Taxon objects it was given; from_csv is also fed a table the harness wrote itself
+      (reader judged without the writer); the matrix read back is usable (summaries, a second write) and feeds
+      NJ / UPGMA like the original - also for the edge-count and the normalised table.  A share of the trees carries
+      labels a delimited table must quote (delimiters, quotes, line feed, digits only, unicode).
 
 Soundness limits actually implemented
   * every leaf carries a distinct taxon and no internal node carries one (compile_from_tree asserts this);
@@ -31,16 +47,23 @@ Soundness limits actually implemented
     'stale + default arguments' are recorded, not judged (statement: "encoding is current or a refresh is requested");
     for unrooted trees the refresh may collapse the basal bifurcation - the answer is judged on the tree as returned;
   * NJ only from additive input (distances of S, or its edge counts = distances of S with unit lengths), no negative
-    lengths; UPGMA only when S is ultrametric (all tips equidistant from the root to 1e-12); result lengths are
-    compared at 1e-9 relative to the largest distance (NJ's 1/(2(n-2)) factor rounds even on dyadic input);
-  * matrix entries: exact equality on integer / dyadic lengths, 1e-9 relative on float lengths;
+    lengths, verdict only with positive internal edge lengths; UPGMA only when S is ultrametric (all tips equidistant
+    from the root to 1e-12 relative); result lengths are compared at 1e-9 relative to the largest distance (NJ's
+    1/(2(n-2)) factor rounds even on dyadic input);
+  * matrix entries: exact equality when all lengths are integer multiples of one power of two (ints, dyadic fractions,
+    either scaled by 2**+-40), 1e-9 relative to the sum of |edge lengths| otherwise - no absolute floor;
+  * negative edge lengths are generated for the matrix / node matrix / patristic_distance / summary clauses only;
   * normalised values: 'tree length' is the library's documented Tree.length() (all edges, root edge included),
     'number of edges' is one per node (every DendroPy node owns an edge); skipped when the tree length is 0;
+    normalised summaries are the raw summary divided by the constant ("the results are normalized");
   * write_csv normalises by tree length BY DEFAULT: the round trip is compared with normalisation off and, separately,
     the default output against d / tree length; CSV without any labels is not generated (write_csv emits rows in set
     order, so an unlabelled table cannot be matched to taxa by anyone); row-names-only and column-names-only are;
+    labels: no leading/trailing white space (from_csv trims by documentation), no carriage return (text-mode files
+    translate it), not empty, distinct without regard to case (a fresh namespace is case-insensitive);
   * summaries with fewer than two admitted taxa are not generated (NullAssemblageException is the documented outcome);
   * path_edges (is_store_path_edges=True) is used as a workload variation; its edge lists are recorded, not judged;
+  * a one-leaf tree whose root is the leaf yields a matrix that maps no taxon: recorded, not judged (no pair exists);
   * UPGMA's size-weighted averaging cannot be observed under this property: on ultrametric input all cross-cluster
     distances are equal, so every averaging rule gives the same tree (canaries/C14-x-... documents this).
 
@@ -52,7 +75,10 @@ Mechanisms found on the unchanged tree (smallest witnesses are the first DIRECTE
       write_csv passes its **csv_writer_kwargs dict as the positional *dialect* of csv.writer: delimiter etc. are ignored.
   csv-matrix|*   (distances-list / sum_of_distances / mean_pairwise_distance / write_csv)
       compile_from_dict (from_csv) fills neither the set of distinct taxon pairs nor the zero diagonal.
+  Tree.mrca|raises-on-one-shot-iterable|taxon_labels|TypeError
+      Tree.mrca(taxon_labels=<iterator>) hands the iterator to get_taxa and then calls len() on it.
 """
+import atexit
 import io
 import itertools
 import os
@@ -65,50 +91,92 @@ from .. import ref, gen, bridge, core
 from ..mon.hooks import Hooks
 from ..mon import arbor
 from . import _c14_util as U
+from . import _c14_csv as C
 
 PROP = "C14"
 LEVEL = "exploration"
 TECHNIQUE = ("runtime monitoring: post-hooks on PhylogeneticDistanceMatrix / NodeDistanceMatrix compilation, Tree.mrca, "
              "treemeasure.patristic_distance, nj_tree, upgma_tree compare every observed result with a path / ancestor "
-             "oracle on a DendroPy-free spec; NJ / UPGMA judged by reproduction of the generating tree")
+             "oracle on a DendroPy-free spec; NJ / UPGMA judged by reproduction of the generating tree (topology, lengths, "
+             "taxon identity, rooting, stability under the first bipartition encoding); CSV text judged cell by cell "
+             "with CPython's csv module, reader and writer also separately")
 LEVEL_TEXT = ("Hooks around the real distance-matrix, MRCA, NJ and UPGMA functions compare every observed result with path "
               "lengths, edge counts and common ancestors computed on DendroPy-free specs extracted from the live trees; NJ / UPGMA "
-              "results are judged by whether they reproduce the generating tree. The property held on the executions listed "
-              "in the evidence file, nothing more.")
-LEVEL_NOTE = ("Trusted: vf/ref.py (leaf_paths, clades, split_lengths), vf/props/_c14_util.py, the comparison code of "
-              "vf/props/C14.py, TaxonNamespace.taxon_bitmask (C10), CPython csv. Coverage is what the workload reached: all "
+              "results (from patristic distances and from edge counts) are judged by whether they reproduce the generating tree "
+              "over the matrix's own taxa; CSV tables are judged as text and as matrices read back through every sink / source "
+              "route. The property held on the executions listed in the evidence file, nothing more.")
+LEVEL_NOTE = ("Trusted: vf/ref.py (leaf_paths, clades, split_lengths), vf/props/_c14_util.py, vf/props/_c14_csv.py, the comparison "
+              "code of vf/props/C14.py, TaxonNamespace.taxon_bitmask (C10), CPython csv. Coverage is what the workload reached: all "
               "shapes n <= 5, random trees <= 15 (quick) / <= 80 (thorough) leaves.")
-RULE = ("cases = directed witnesses | every rooted multifurcating shape n<=4 x rooting x 9 length patterns, n=5: half of the shapes "
-        "x 1 pattern (quick) / every shape x rooting x 3 patterns (thorough) "
-        "| random trees (polytomies, unifurcations, 9 length patterns, 3 namespace layouts) driven through a history "
-        "matrix -> queries -> encode -> mutate -> refresh | additive matrices from random trees with positive dyadic / float "
-        "lengths -> NJ | ultrametric trees -> UPGMA | CSV round trips.  non-trivial = tree with >= 3 leaves and >= 1 internal "
+RULE = ("cases = directed witnesses | every rooted multifurcating shape n<=4 x rooting (rooted, unrooted, a third also unspecified) "
+        "x 10 length patterns (incl. negative lengths), n=5: half of the shapes x 1 pattern (quick) / every shape x rooting x 3-4 "
+        "patterns (thorough); a share padded with unary nodes to equal leaf depth "
+        "| random trees (polytomies, unifurcations, 10 length patterns, 8% rescaled by 2**+-40, 3 namespace layouts, 3 rootings) "
+        "driven through a history matrix -> accessors x options -> queries (every argument kind) -> encode -> SPR -> refresh -> "
+        "leaf cut off / grafted -> refresh | additive matrices from random trees with positive dyadic / float "
+        "lengths -> NJ (distances and edge counts) | ultrametric trees -> UPGMA; equal-depth trees with non-clock-like lengths -> "
+        "UPGMA on edge counts | CSV round trips: 7 option variants x 9 sink/source routes, 60% with labels that need quoting, "
+        "plus harness-written tables.  non-trivial = tree with >= 3 leaves and >= 1 internal "
         "edge; distinct = distinct (canonical tree with lengths, rooting, namespace layout, battery)")
 REACH = ["phylogeneticdistance:PhylogeneticDistanceMatrix.compile_from_tree",
          "phylogeneticdistance:PhylogeneticDistanceMatrix._mirror_lookups",
          "phylogeneticdistance:PhylogeneticDistanceMatrix.compile_from_dict",
          "phylogeneticdistance:NodeDistanceMatrix.compile_from_tree",
+         "phylogeneticdistance:NodeDistanceMatrix.from_tree",
          "phylogeneticdistance:PhylogeneticDistanceMatrix.nj_tree",
          "phylogeneticdistance:PhylogeneticDistanceMatrix.upgma_tree",
          "phylogeneticdistance:PhylogeneticDistanceMatrix.write_csv",
          "phylogeneticdistance:PhylogeneticDistanceMatrix.from_csv",
+         "phylogeneticdistance:PhylogeneticDistanceMatrix.distance",
          "phylogeneticdistance:PhylogeneticDistanceMatrix._calculate_mean_pairwise_distance",
          "phylogeneticdistance:PhylogeneticDistanceMatrix._calculate_mean_nearest_taxon_distance",
+         "container:DataTable.from_csv", "container:DataTable._from_csv_file",
          "_tree:Tree.mrca", "_tree:Tree.encode_bipartitions", "treemeasure:patristic_distance"]
 MIN_EVENTS = {"pdm-entry-judged": (100000, 5000000), "ndm-entry-judged": (100000, 1000000),
               "mrca-judged": (50000, 500000), "tm-judged": (6000, 60000),
               "summary-judged": (20000, 200000), "nj-judged": (2000, 20000), "upgma-judged": (500, 5000),
               "csv-entry-judged": (15000, 150000), "hook:Tree.mrca:return": (50000, 500000),
               "hook:PhylogeneticDistanceMatrix.compile_from_tree:return": (2000, 20000),
-              "matrix-recompiled-from-another-tree": (100, 2000)}
+              "matrix-recompiled-from-another-tree": (100, 2000),
+              # identity / option / route / history dimensions (each one decides a clause of its own)
+              "pdm-identity-judged": (8000, 28000), "accessor-judged": (17000, 55000),
+              "accessor-option-judged": (200000, 600000), "ndm-accessor-judged": (6500, 14000),
+              "cluster-identity-judged": (12000, 40000),
+              "cluster-judged:nj_tree:steps": (1800, 6000), "cluster-judged:upgma_tree:steps": (2000, 5000),
+              "cluster-judged:upgma_tree:weighted": (2000, 7000),
+              "cluster-after-encode-judged:nj_tree": (4000, 13000), "cluster-after-encode-judged:upgma_tree": (4000, 12000),
+              "cluster-from-csv-matrix:normalized": (200, 700), "cluster-from-csv-matrix:steps": (250, 750),
+              "csv-text-cell-judged": (80000, 250000), "csv-namespace-identity-judged": (1700, 5000),
+              "csv-harness-table-judged": (1700, 5000), "csv-harness-table-source:file": (450, 1500),
+              "csv-harness-table-source:path": (450, 1500),
+              "csv-route:stringio->stringio": (400, 1000), "csv-route:stringio->path": (200, 600),
+              "csv-route:stringio->file": (200, 600), "csv-route:path->stringio": (200, 600),
+              "csv-route:file->stringio": (200, 600), "csv-route:path->path": (120, 450), "csv-route:path->file": (120, 450),
+              "csv-route:file->path": (120, 450), "csv-route:file->file": (120, 450),
+              "mrca-after-leafset-change:cut": (800, 2400), "mrca-after-leafset-change:graft": (1000, 3000),
+              "mrca-argument:taxa:iterator": (7500, 35000), "mrca-argument:taxa:generator": (7500, 35000),
+              "mrca-argument:taxa:dict-keys": (7500, 35000), "mrca-argument:taxon_labels:dict-keys": (7500, 35000),
+              "mrca-argument:taxon_labels:other-case": (7000, 32000),
+              "mrca-judged:absent-taxon:leafset_bitmask": (1500, 4500), "mrca-judged:rooting-unspecified": (15000, 45000),
+              "workload:lengths-rescaled-by-2^40": (200, 750), "workload:lengths-rescaled-by-2^-40": (200, 750),
+              "workload:negative-lengths": (250, 700), "workload:odd-labels": (600, 1800),
+              "workload:ultrametric-with-zero-height-cherries": (150, 550),
+              "workload:rooting-unspecified": (550, 1800)}
+# (on the library as first found every Tree.mrca call with a one-shot iterable of LABELS raised - finding
+#  Tree.mrca|raises-on-one-shot-iterable|taxon_labels|TypeError; the minima below presuppose the repaired Tree.mrca)
+MIN_EVENTS.update({"mrca-argument:taxon_labels:iterator": (7500, 35000), "mrca-argument:taxon_labels:generator": (7500, 35000)})
 ASSUMPTIONS = ["reference path lengths / edge counts / common ancestors come from a DendroPy-free spec read from the raw child lists "
                "(vf.bridge.extract) at the moment of each hooked call",
                "TaxonNamespace.taxon_bitmask is taken as the given taxon->bit assignment (its stability is C10)",
-               "normalisation constants follow the library's documented conventions (Tree.length incl. root edge; one edge per node)",
-               "float comparisons: exact on integer/dyadic lengths, 1e-9 relative otherwise; reconstruction lengths always 1e-9 relative"]
+               "normalisation constants follow the library's documented conventions (Tree.length incl. root edge; one edge per node); "
+               "normalised summaries are the raw summary divided by the constant",
+               "float comparisons: exact when all lengths are integer multiples of one power of two, 1e-9 relative to the sum of "
+               "|edge lengths| otherwise (no absolute floor); reconstruction lengths always 1e-9 relative to the largest distance",
+               "CSV text is parsed with CPython's csv module under the requested delimiter; files are opened with newline='' by the harness",
+               "a one-shot iterable handed to Tree.mrca stands for the taxa the driver declared through a side channel"]
 CASE_TIMEOUT = 120
 
-PATTERNS = ("none", "unit", "ints", "zeros", "dyadic", "float", "mixed_missing", "ultrametric", "ultrametric_float")
+PATTERNS = ("none", "unit", "ints", "zeros", "dyadic", "float", "mixed_missing", "ultrametric", "ultrametric_float", "signed")
 NSCFG = ("exact", "larger", "shuffled")
 
 
@@ -117,6 +185,7 @@ class View(object):
     """DendroPy-free spec of a live tree at one quiescent point + the way back to live objects."""
 
     def __init__(self, tree):
+        self.tree = tree
         self.spec, pairs = bridge.extract(tree, with_nodes=True)
         self.pairs = pairs
         self.live = bridge.node_map(pairs)
@@ -133,9 +202,38 @@ class View(object):
             elif nd.taxon is not None:
                 self.problem = "taxon on an internal node"
         self.labels = sorted(self.taxon)
-        self.exact = U.is_exact_spec(self.spec)
-        self.total = ref.total_length(self.spec, include_root_edge=True)
         self.n_nodes = len(pairs)
+        self._lazy = {}
+
+    def _get(self, name, fn):
+        if name not in self._lazy:
+            self._lazy[name] = fn()
+        return self._lazy[name]
+
+    @property
+    def exact(self):
+        return self._get("exact", lambda: U.is_exact_spec(self.spec))
+
+    @property
+    def total(self):
+        return self._get("total", lambda: ref.total_length(self.spec, include_root_edge=True))
+
+    @property
+    def scale(self):
+        """magnitude rounding errors are proportional to: sum of |edge length|"""
+        return self._get("scale", lambda: U.abs_total(self.spec))
+
+    def factor(self, weighted, norm):
+        """documented normalisation constant (None: division by zero, not judged)."""
+        if not norm:
+            return 1.0
+        return (self.total if weighted else float(self.n_nodes)) or None
+
+    def vscale(self, weighted, norm):
+        """magnitude of the entries under a setting (for relative comparison)."""
+        if weighted:
+            return self.scale / abs(self.total) if norm else self.scale
+        return 1.0 if norm else float(self.n_nodes)
 
 
 def encoding_is_current(tree, view):
@@ -158,11 +256,15 @@ def encoding_is_current(tree, view):
     return True
 
 
+ONE_SHOT = ("iterator", "generator")
+
+
 class Monitor(object):
     def __init__(self, ctx, rng):
         self.ctx = ctx
         self.rng = rng
         self.expect = None          # set by the driver right before nj_tree / upgma_tree
+        self.query = None           # set by the driver right before Tree.mrca: the taxa the argument stands for
         self.pair_cap = 700 if ctx.tier == "quick" else 2500
 
     def install(self, hooks):
@@ -190,7 +292,10 @@ class Monitor(object):
     def post_pdm(self, view, pdm, args, kw, result, exc):
         ctx = self.ctx
         if view is None or view.problem:
+            # the workload builds only admissible trees: this must not happen
             ctx.note("compile_from_tree-on-inadmissible-tree-not-judged")
+            ctx.mark_inconclusive("a tree handed to PhylogeneticDistanceMatrix.compile_from_tree was not admissible (%s)" % (
+                view.problem if view is not None else "child lists are not a tree"))
             return
         det = {"tree": ref.to_newick(view.spec)}
         if exc is not None:
@@ -202,6 +307,8 @@ class Monitor(object):
     def post_ndm(self, view, ndm, args, kw, result, exc):
         ctx = self.ctx
         if view is None:
+            ctx.note("NodeDistanceMatrix.compile_from_tree-on-inadmissible-tree-not-judged")
+            ctx.mark_inconclusive("a tree handed to NodeDistanceMatrix.compile_from_tree could not be read as a tree")
             return
         det = {"tree": ref.to_newick(view.spec)}
         if exc is not None:
@@ -214,7 +321,7 @@ class Monitor(object):
             pairs = [(a, b) for a in nodes for b in nodes]
         else:
             pairs = [(self.rng.choice(nodes), self.rng.choice(nodes)) for _ in range(self.pair_cap)]
-        scale = view.total
+        scale = view.scale
         for a, b in pairs:
             la, lb = view.live[id(a)], view.live[id(b)]
             L, E, N = U.node_pair(chain, a, b)
@@ -241,9 +348,20 @@ class Monitor(object):
                 det2 = dict(det, a=_desc(a), b=_desc(b))
                 ctx.violation(what[0], what[1], det2)
                 return
+        # the same two quantities through every accessor / option combination, on a few pairs of distinct nodes
+        for _ in range(3):
+            a, b = self.rng.choice(nodes), self.rng.choice(nodes)
+            if a is b:
+                continue
+            L, E, N = U.node_pair(chain, a, b)
+            bad = judge_option_product(ctx, ndm, view.live[id(a)], view.live[id(b)], L, E, view, "ndm", dict(det, a=_desc(a), b=_desc(b)))
+            ctx.ev("ndm-accessor-judged")
+            if bad:
+                return
 
     # ------------------------------------------------------------------ Tree.mrca
     def pre_mrca(self, tree, args, kw):
+        decl, self.query = self.query, None
         if args or "start_node" in kw:
             return None
         if "leafset_bitmask" in kw:
@@ -255,10 +373,15 @@ class Monitor(object):
         else:
             return None
         ns = tree.taxon_namespace
-        if route == "taxa":
+        if decl is not None and decl["route"] == route:
+            # the driver declared which taxa the argument stands for (one-shot iterables cannot be read twice)
+            q = list(decl["taxa"])
+            kind = decl["kind"]
+        elif route == "taxa":
             q = kw["taxa"]
             if not isinstance(q, (list, tuple, set, frozenset)):
                 return None
+            kind = type(q).__name__
             q = list(q)
         elif route == "taxon_labels":
             labs = kw["taxon_labels"]
@@ -269,6 +392,7 @@ class Monitor(object):
                 by.setdefault(t.label, []).append(t)
             if any(len(by.get(x, ())) != 1 for x in labs):
                 return None
+            kind = type(labs).__name__
             q = [by[x][0] for x in labs]
         else:
             mask = kw["leafset_bitmask"]
@@ -281,6 +405,7 @@ class Monitor(object):
                     rest &= ~b
             if rest or not isinstance(mask, int):
                 return None
+            kind = "int"
         if not q:
             return None
         try:
@@ -297,7 +422,7 @@ class Monitor(object):
         else:
             b = tree._seed_node._edge._bipartition
             mode = "never-encoded" if (b is None or not b._leafset_bitmask) else "stale"
-        return {"route": route, "q": q, "mode": mode, "before": ref.to_newick(view.spec), "rooted": tree._is_rooted}
+        return {"route": route, "kind": kind, "q": q, "mode": mode, "before": ref.to_newick(view.spec), "rooted": tree._is_rooted}
 
     def post_mrca(self, snap, tree, args, kw, result, exc):
         ctx = self.ctx
@@ -306,15 +431,19 @@ class Monitor(object):
             return
         mode, route = snap["mode"], snap["route"]
         det = {"tree_before": snap["before"], "query": sorted(t.label for t in snap["q"]), "route": route, "mode": mode,
-               "rooted_flag": snap["rooted"]}
+               "argument": snap["kind"], "rooted_flag": snap["rooted"]}
         judged = mode in ("refresh", "current")
         if exc is not None:
             if isinstance(exc, core.CaseTimeout):
                 return
-            if judged:
-                ctx.unexpected("Tree.mrca", exc, det)
-            else:
+            if not judged:
                 ctx.note("Tree.mrca-%s-default-raises" % mode)
+            elif snap["kind"] in ONE_SHOT and core.raised_in_repo(exc):
+                # own mechanism key: the query is given as a documented 'Iterable' that can be walked only once
+                ctx.violation("Tree.mrca|raises-on-one-shot-iterable|%s|%s" % (route, type(exc).__name__),
+                              "Tree.mrca(%s=<%s>) raised %s; the docstring admits any iterable" % (route, snap["kind"], core.exc_brief(exc)), det)
+            else:
+                ctx.unexpected("Tree.mrca", exc, det)
             return
         try:
             view = View(tree)
@@ -334,6 +463,11 @@ class Monitor(object):
             return
         ctx.ev("mrca-judged")
         ctx.ev("mrca-judged:%s:%s" % (mode, route))
+        ctx.ev("mrca-argument:%s:%s" % (route, snap["kind"]))
+        if not on_tree:
+            ctx.ev("mrca-judged:absent-taxon:%s" % route)
+        if snap["rooted"] is None:
+            ctx.ev("mrca-judged:rooting-unspecified")
         if ok:
             return
         if not on_tree:
@@ -395,7 +529,7 @@ class Monitor(object):
                 ctx.unexpected("treemeasure.patristic_distance", exc, det)
             return
         ctx.ev("tm-judged")
-        if not U.same(result, snap["want"], view.exact, view.total):
+        if not U.same(result, snap["want"], view.exact, view.scale):
             try:
                 det["tree_at_return"] = ref.to_newick(bridge.extract(args[0]))
             except bridge.ExtractError:
@@ -411,7 +545,9 @@ class Monitor(object):
             ctx.note("%s-without-declared-generating-tree-not-judged" % op)
             return
         S = exp["S"]
-        det = {"generating_tree": ref.to_newick(S), "input": exp["tag"]}
+        judged = exp["judged"]
+        wtag = "weighted" if exp["weighted"] else "steps"
+        det = {"generating_tree": ref.to_newick(S), "input": exp["tag"], "distances": wtag}
         if exc is not None:
             if not isinstance(exc, core.CaseTimeout):
                 ctx.unexpected(op, exc, det)
@@ -421,23 +557,98 @@ class Monitor(object):
             ctx.violation("%s|malformed-tree" % op, "; ".join(probs), det)
             return
         try:
-            R = bridge.extract(result)
+            R, rpairs = bridge.extract(result, with_nodes=True)
         except bridge.ExtractError as e:
             ctx.violation("%s|malformed-tree" % op, str(e), det)
             return
         det["result"] = ref.to_newick(R)
-        ctx.ev("nj-judged" if op == "nj_tree" else "upgma-judged")
         bad = U.judge_reconstruction(S, R, rooted)
-        if bad:
-            ctx.violation("%s|%s" % (op, bad[0]), bad[1], det)
-        if bool(result.is_rooted) != rooted:
-            ctx.note("%s-result-rooting-flag-is-%s" % (op, result.is_rooted))
+        if not judged:
+            # input outside "positive internal edge lengths": recorded, never a verdict
+            ctx.note("%s-on-degenerate-input-%s" % (op, "reproduces-the-tree" if not bad else "differs"))
+        else:
+            ctx.ev("nj-judged" if op == "nj_tree" else "upgma-judged")
+            ctx.ev("cluster-judged:%s:%s" % (op, wtag))
+            if bad:
+                ctx.violation("%s|%s" % (op, bad[0]), bad[1], det)
+        # the result is a tree over the matrix's taxa: same namespace object, the very Taxon objects of the matrix
+        ctx.ev("cluster-identity-judged")
+        identity_ok = True
+        if result.taxon_namespace is not pdm.taxon_namespace:
+            identity_ok = False
+            ctx.violation("%s|result-namespace-is-not-the-matrix-namespace" % op,
+                          "the tree returned does not live in the taxon namespace of the matrix it was built from", det)
+        mapped = set(id(t) for t in pdm.taxon_iter())
+        if any((not s[3]) and id(nd.taxon) not in mapped for s, nd in rpairs):
+            identity_ok = False
+            ctx.violation("%s|result-leaf-taxon-is-not-a-matrix-taxon" % op,
+                          "a leaf of the tree returned carries a Taxon object that is not one of the matrix's taxa", det)
+        # rooted tree (UPGMA) / unrooted tree (NJ)
+        flag = result.is_rooted
+        if rooted and flag is not True:
+            ctx.violation("upgma_tree|result-not-rooted", "UPGMA tree has is_rooted = %r: its root is not part of the tree" % (flag,), det)
+        elif not rooted and flag:
+            ctx.violation("nj_tree|result-flagged-rooted", "NJ tree has is_rooted = %r although NJ determines no root" % (flag,), det)
+        # ... and stays the generating tree when it is used: the first bipartition encoding must not change it
+        if judged and not bad and identity_ok and exp.get("after_encode", True):
+            try:
+                result.encode_bipartitions()
+            except core.CaseTimeout:
+                raise
+            except Exception as e:
+                ctx.unexpected("%s-result.encode_bipartitions" % op, e, det)
+                return
+            try:
+                R2 = bridge.extract(result)
+            except bridge.ExtractError as e:
+                ctx.violation("%s|after-encode|malformed-tree" % op, str(e), det)
+                return
+            ctx.ev("cluster-after-encode-judged")
+            ctx.ev("cluster-after-encode-judged:%s" % op)
+            bad2 = U.judge_reconstruction(S, R2, rooted)
+            if bad2:
+                ctx.violation("%s|after-encode|%s" % (op, bad2[0]),
+                              "after result.encode_bipartitions(): " + bad2[1], dict(det, result_after_encode=ref.to_newick(R2)))
 
     def post_nj(self, snap, pdm, args, kw, result, exc):
         self._post_cluster("nj_tree", False, pdm, result, exc)
 
     def post_upgma(self, snap, pdm, args, kw, result, exc):
         self._post_cluster("upgma_tree", True, pdm, result, exc)
+
+
+def judge_option_product(ctx, m, x, y, L, E, view, prefix, det):
+    """every accessor of a distance matrix x every weighted / normalised combination its signature allows,
+    for one pair (x, y) with oracle path length L and edge count E.  Returns True after a violation."""
+    calls = [("__call__", "weighted", False, lambda: m(x, y))]
+    for nm in (False, True):
+        calls.append(("patristic_distance", "weighted", nm, lambda nm=nm: m.patristic_distance(x, y, is_normalize_by_tree_size=nm)))
+        calls.append(("path_edge_count", "steps", nm, lambda nm=nm: m.path_edge_count(x, y, is_normalize_by_tree_size=nm)))
+        for w in (True, False):
+            calls.append(("distance", "weighted" if w else "steps", nm,
+                          lambda w=w, nm=nm: m.distance(x, y, is_weighted_edge_distances=w, is_normalize_by_tree_size=nm)))
+    for name, wt, nm, fn in calls:
+        weighted = wt == "weighted"
+        fac = view.factor(weighted, nm)
+        if fac is None:
+            ctx.note("normalisation-by-zero-tree-length-skipped")
+            continue
+        want = (L if weighted else E) / fac if nm else (L if weighted else E)
+        tag = "%s|%s%s" % (name, wt, "|normalized" if nm else "")
+        try:
+            got = fn()
+        except core.CaseTimeout:
+            raise
+        except Exception as e:
+            ctx.violation("%s|accessor|raises|%s" % (prefix, type(e).__name__),
+                          "%s raised %s for a pair of the tree" % (tag, core.exc_brief(e)), det)
+            return True
+        ctx.ev("accessor-option-judged")
+        ex = (view.exact or not weighted) and not nm
+        if not U.same(got, want, ex, view.vscale(weighted, nm)):
+            ctx.violation("%s|accessor|%s" % (prefix, tag), "%s returned %r, oracle %r" % (tag, got, want), det)
+            return True
+    return False
 
 
 def _desc(s):
@@ -448,22 +659,46 @@ def _desc(s):
 
 # =================================================================================================
 def judge_pdm(ctx, pdm, view, rng, cap, det):
-    """oracle for a finished PhylogeneticDistanceMatrix of view's tree."""
+    """oracle for a finished PhylogeneticDistanceMatrix of view's tree (public accessors only)."""
     labels = view.labels
+    ctx.ev("pdm-identity-judged")
+    if pdm.taxon_namespace is not view.tree.taxon_namespace:
+        ctx.violation("pdm|namespace-is-not-the-tree-namespace",
+                      "the matrix compiled from a tree does not refer to that tree's taxon namespace", det)
+        return False
+    mapped = set(pdm.taxon_iter())
     if len(labels) < 2:
+        # no pair of leaf taxa: only "zero self-distance" can be asked, through the accessors
         ctx.note("matrix-of-a-tree-with-fewer-than-2-leaves")
+        for a in labels:
+            ta = view.taxon[a]
+            ctx.ev("pdm-single-leaf-judged")
+            try:
+                d, k = pdm.patristic_distance(ta, ta), pdm.path_edge_count(ta, ta)
+            except Exception as e:
+                ctx.violation("pdm|entry-missing|%s" % type(e).__name__, "self distance of the only leaf taxon cannot be read", det)
+                return False
+            if d != 0 or k != 0 or isinstance(d, bool) or isinstance(k, bool):
+                ctx.violation("pdm|self-distance-not-zero", "self distance %r / %r steps" % (d, k), det)
+                return False
+            if mapped != set(view.taxon.values()):
+                ctx.note("single-leaf-tree-matrix-does-not-map-its-leaf-taxon")
         return True
     paths = ref.leaf_paths(view.spec)
     leafnode = U.leaf_by_label(view.spec)
-    mapped = set(pdm.taxon_iter())
-    if mapped != set(view.taxon.values()) or set(pdm) != mapped:
+    if mapped != set(view.taxon.values()):
         ctx.violation("pdm|mapped-taxa-are-not-the-leaf-taxa", "matrix maps %d taxa, tree has %d leaf taxa" % (len(mapped), len(labels)), det)
         return False
+    try:
+        if set(pdm) != mapped:
+            ctx.note("pdm-iteration-differs-from-taxon_iter")
+    except Exception as e:
+        ctx.note("pdm-iteration-raises-%s" % type(e).__name__)
     if len(labels) ** 2 <= cap:
         pairs = [(a, b) for a in labels for b in labels]
     else:
         pairs = [(rng.choice(labels), rng.choice(labels)) for _ in range(cap)]
-    scale = view.total
+    scale = view.scale
     for a, b in pairs:
         ta, tb = view.taxon[a], view.taxon[b]
         if a == b:
@@ -474,14 +709,13 @@ def judge_pdm(ctx, pdm, view, rng, cap, det):
         try:
             d, k, m = pdm.patristic_distance(ta, tb), pdm.path_edge_count(ta, tb), pdm.mrca(ta, tb)
             d2, k2, m2 = pdm.patristic_distance(tb, ta), pdm.path_edge_count(tb, ta), pdm.mrca(tb, ta)
-            raw = pdm._taxon_phylogenetic_distances[ta][tb]
         except Exception as e:
             ctx.violation("pdm|entry-missing|%s" % type(e).__name__, "matrix has no entry for a pair of leaf taxa of its tree",
                           dict(det, pair=[a, b]))
             return False
         what = None
-        if a == b and (d != 0 or k != 0 or raw != 0):
-            what = ("pdm|self-distance-not-zero", "self distance %r / %r steps (stored %r)" % (d, k, raw))
+        if a == b and (d != 0 or k != 0):
+            what = ("pdm|self-distance-not-zero", "self distance %r / %r steps" % (d, k))
         elif not U.same(d, L, view.exact, scale):
             what = ("pdm|path-length", "matrix says %r, the path on the tree has length %r" % (d, L))
         elif k != E or isinstance(k, bool):
@@ -495,15 +729,15 @@ def judge_pdm(ctx, pdm, view, rng, cap, det):
             return False
     # distances(): one value per unordered pair
     und = list(itertools.combinations(labels, 2))
-    if len(und) <= 4 * cap:
+    if len(und) > 4 * cap:
+        ctx.note("distances-list-of-a-large-matrix-not-judged")
+    else:
         for weighted in (True, False):
             for norm in (False, True):
-                fac = 1.0
-                if norm:
-                    fac = view.total if weighted else float(view.n_nodes)
-                    if not fac:
-                        ctx.note("normalisation-by-zero-tree-length-skipped")
-                        continue
+                fac = view.factor(weighted, norm)
+                if fac is None:
+                    ctx.note("normalisation-by-zero-tree-length-skipped")
+                    continue
                 want = sorted(paths[p][0 if weighted else 1] / fac for p in und)
                 try:
                     got = sorted(pdm.distances(is_weighted_edge_distances=weighted, is_normalize_by_tree_size=norm))
@@ -511,8 +745,9 @@ def judge_pdm(ctx, pdm, view, rng, cap, det):
                     ctx.unexpected("pdm.distances", e, det)
                     return False
                 ctx.ev("pdm-distances-list-judged")
-                ex = view.exact and not norm
-                if len(got) != len(want) or any(not U.same(x, y, ex, scale) for x, y in zip(got, want)):
+                ex = (view.exact or not weighted) and not norm
+                vs = view.vscale(weighted, norm)
+                if len(got) != len(want) or any(not U.same(x, y, ex, vs) for x, y in zip(got, want)):
                     ctx.violation("pdm|distances-list-is-not-the-entries|%s%s" % ("weighted" if weighted else "steps", "|normalized" if norm else ""),
                                   "distances() returned %d values %s..., one per unordered pair would be %d values %s..." % (
                                       len(got), got[:4], len(want), want[:4]), det)
@@ -520,15 +755,10 @@ def judge_pdm(ctx, pdm, view, rng, cap, det):
     return True
 
 
-def oracle_tables(view, weighted, norm):
-    """(entries {(a,b): value}, ok) under the given setting, from the oracle."""
+def oracle_tables(view, weighted):
+    """raw entries {(a,b): path length | edge count} from the oracle."""
     paths = ref.leaf_paths(view.spec)
-    fac = 1.0
-    if norm:
-        fac = view.total if weighted else float(view.n_nodes)
-        if not fac:
-            return None
-    return dict((k, v[0 if weighted else 1] / fac) for k, v in paths.items())
+    return dict((k, v[0 if weighted else 1]) for k, v in paths.items())
 
 
 def mpd(entries, subset):
@@ -542,22 +772,28 @@ def mntd(entries, subset):
     return sum(vals) / len(vals)
 
 
-def judge_summaries(ctx, pdm, taxon_of, entries_for, labels, rng, exact, scale, det, prefix, settings, nfilters):
-    """mean_pairwise_distance / mean_nearest_taxon_distance / sum_of_distances against the docstring formulas.
-    taxon_of: label -> Taxon of *this* matrix; entries_for(weighted, norm) -> oracle entries or None."""
+def judge_summaries(ctx, pdm, taxon_of, entries_for, factor_for, labels, rng, exact, scale_for, det, prefix, settings, nfilters):
+    """mean_pairwise_distance / mean_nearest_taxon_distance / sum_of_distances against the docstring formulas:
+    the average of the (raw) entries, and with is_normalize_by_tree_size "the results are normalized", i.e. that
+    average divided by the tree length / number of edges (the order matters for the nearest taxon when the tree
+    length is negative).  taxon_of: label -> Taxon of *this* matrix; entries_for(weighted) -> raw oracle entries;
+    factor_for(weighted, norm) -> divisor or None; scale_for(weighted, norm) -> magnitude of the results."""
     if len(labels) < 2:
+        ctx.note("summaries-of-a-matrix-with-fewer-than-2-taxa-not-generated")
         return
     subsets = [None]
     for _ in range(nfilters):
         k = rng.randint(2, len(labels))
         subsets.append(frozenset(rng.sample(labels, k)))
     for weighted, norm in settings:
-        entries = entries_for(weighted, norm)
-        if entries is None:
+        fac = factor_for(weighted, norm)
+        if fac is None:
             ctx.note("normalisation-by-zero-tree-length-skipped")
             continue
+        entries = entries_for(weighted)
         tag = "%s%s" % ("weighted" if weighted else "steps", "|normalized" if norm else "")
         ex = exact and not norm
+        scale = scale_for(weighted, norm)
         for sub in subsets:
             members = list(labels) if sub is None else sorted(sub)
             if sub is None:
@@ -566,7 +802,7 @@ def judge_summaries(ctx, pdm, taxon_of, entries_for, labels, rng, exact, scale, 
                 adm = set(taxon_of[x] for x in sub)
                 ff = (lambda t, adm=adm: t in adm)
             for name, fn in (("mean_pairwise_distance", mpd), ("mean_nearest_taxon_distance", mntd)):
-                want = fn(entries, members)
+                want = fn(entries, members) / fac if norm else fn(entries, members)
                 d2 = dict(det, filter=None if sub is None else members, setting=tag)
                 try:
                     got = getattr(pdm, name)(filter_fn=ff, is_weighted_edge_distances=weighted, is_normalize_by_tree_size=norm)
@@ -581,6 +817,8 @@ def judge_summaries(ctx, pdm, taxon_of, entries_for, labels, rng, exact, scale, 
                     ctx.violation("%s|%s|not-the-stated-average|%s" % (prefix, name, tag),
                                   "%s returned %r, the stated average of the entries is %r" % (name, got, want), d2)
         want = sum(entries[p] for p in itertools.combinations(labels, 2))
+        if norm:
+            want = want / fac
         try:
             got = pdm.sum_of_distances(is_weighted_edge_distances=weighted, is_normalize_by_tree_size=norm)
         except core.CaseTimeout:
@@ -595,7 +833,8 @@ def judge_summaries(ctx, pdm, taxon_of, entries_for, labels, rng, exact, scale, 
 
 
 def judge_accessors(ctx, pdm, view, rng, det, npairs):
-    """distance() / __call__ / normalised accessors on a sample of pairs (the hooks count these calls)."""
+    """__call__ / distance / patristic_distance / path_edge_count under every weighted x normalised combination
+    their signatures allow, on a sample of pairs (the hooks count these calls)."""
     labels = view.labels
     if len(labels) < 2:
         return
@@ -605,25 +844,16 @@ def judge_accessors(ctx, pdm, view, rng, det, npairs):
         ta, tb = view.taxon[a], view.taxon[b]
         L, E, N = paths[(a, b)]
         ctx.ev("accessor-judged")
+        if judge_option_product(ctx, pdm, ta, tb, L, E, view, "pdm", dict(det, pair=[a, b])):
+            return
         try:
-            checks = [("__call__", pdm(ta, tb), L, view.exact),
-                      ("distance", pdm.distance(ta, tb), L, view.exact),
-                      ("distance-steps", pdm.distance(ta, tb, is_weighted_edge_distances=False), E, True),
-                      ("path_edge_count-normalized", pdm.path_edge_count(ta, tb, is_normalize_by_tree_size=True), E / float(view.n_nodes), False)]
-            if view.total:
-                checks.append(("patristic_distance-normalized", pdm.patristic_distance(ta, tb, is_normalize_by_tree_size=True), L / view.total, False))
-                checks.append(("distance-normalized", pdm.distance(ta, tb, is_normalize_by_tree_size=True), L / view.total, False))
             m = pdm.mrca(ta, tb)
         except core.CaseTimeout:
             raise
         except Exception as e:
-            ctx.violation("pdm|accessor|raises|%s" % type(e).__name__, "accessor raised %s for a pair of leaf taxa of the tree" % core.exc_brief(e),
+            ctx.violation("pdm|accessor|raises|%s" % type(e).__name__, "mrca raised %s for a pair of leaf taxa of the tree" % core.exc_brief(e),
                           dict(det, pair=[a, b]))
             return
-        for name, got, want, ex in checks:
-            if not U.same(got, want, ex, view.total):
-                ctx.violation("pdm|accessor|%s" % name, "%s returned %r, oracle %r" % (name, got, want), dict(det, pair=[a, b]))
-                return
         if m is not view.live[id(N)]:
             ctx.violation("pdm|mrca", "matrix mrca is not the node where the path turns", dict(det, pair=[a, b]))
             return
@@ -650,8 +880,29 @@ def apply_pattern(spec, rng, pat):
         gen.ultrametric_lengths(spec, rng, dyadic=True)
     elif pat == "ultrametric_float":
         gen.ultrametric_lengths(spec, rng, dyadic=False)
+    elif pat == "signed":
+        # negative lengths are lengths too (matrix / node matrix / patristic_distance / summaries are sign-agnostic);
+        # ints or dyadic fractions, so every sum is exact
+        dy = rng.random() < 0.5
+        for n in ref.preorder(spec):
+            if n is spec and rng.random() >= 0.2:
+                n[2] = None
+            else:
+                n[2] = (rng.randint(-24, 40) / 8.0) if dy else rng.randint(-3, 5)
     else:
         gen.decorate_lengths(spec, rng, pat, root_length=(rng.random() < 0.2))
+    return spec
+
+
+def maybe_rescale(ctx, spec, rng, p=0.08):
+    """the same tree in another unit: every length times 2**40 or 2**-40 (exactness is preserved)."""
+    if rng.random() >= p:
+        return spec
+    f = rng.choice([2.0 ** 40, 2.0 ** -40])
+    for n in ref.preorder(spec):
+        if n[2] is not None:
+            n[2] = n[2] * f
+    ctx.ev("workload:lengths-rescaled-by-2^%d" % (40 if f > 1 else -40))
     return spec
 
 
@@ -663,8 +914,14 @@ def upgma_admissible(spec):
     return len(ref.leaf_taxa(spec)) >= 2 and not U.has_negative(spec) and U.is_ultrametric(spec)
 
 
-def do_nj(ctx, mon, pdm, S, tag, weighted=True):
-    mon.expect = {"op": "nj_tree", "S": S if weighted else U.unit_copy(S), "tag": tag}
+def do_nj(ctx, mon, pdm, E, tag, weighted=True, after_encode=True):
+    """E: the tree whose path lengths are the matrix's distances (weighted=False: the library is asked to use
+    the edge counts instead = path lengths of E with unit lengths).  A verdict only when E has positive internal
+    edge lengths (the statement's proviso); otherwise the outcome is recorded."""
+    if not weighted:
+        E = U.unit_copy(E)
+    mon.expect = {"op": "nj_tree", "S": E, "tag": tag, "weighted": weighted, "judged": U.positive_internal(E),
+                  "after_encode": after_encode}
     try:
         if weighted:
             return pdm.nj_tree()
@@ -677,10 +934,15 @@ def do_nj(ctx, mon, pdm, S, tag, weighted=True):
         mon.expect = None
 
 
-def do_upgma(ctx, mon, pdm, S, tag):
-    mon.expect = {"op": "upgma_tree", "S": S, "tag": tag}
+def do_upgma(ctx, mon, pdm, E, tag, weighted=True):
+    """E ultrametric (weighted=False: E with unit lengths must be: all leaves equally many edges below the root)."""
+    if not weighted:
+        E = U.unit_copy(E)
+    mon.expect = {"op": "upgma_tree", "S": E, "tag": tag, "weighted": weighted, "judged": True}
     try:
-        return pdm.upgma_tree()
+        if weighted:
+            return pdm.upgma_tree()
+        return pdm.upgma_tree(is_weighted_edge_distances=False)
     except core.CaseTimeout:
         raise
     except Exception:
@@ -689,18 +951,137 @@ def do_upgma(ctx, mon, pdm, S, tag):
         mon.expect = None
 
 
+def cluster_battery(ctx, mon, pdm, spec, rng, parts, tag, p_steps):
+    """NJ / UPGMA from a matrix compiled from a tree: patristic distances and, as the other value of the
+    is_weighted_edge_distances option, edge counts."""
+    n = len(ref.leaf_taxa(spec))
+    if n < 2:
+        return
+    if "nj" in parts:
+        if nj_admissible(spec):
+            do_nj(ctx, mon, pdm, spec, tag, after_encode=rng.random() < 0.5)
+        if rng.random() < p_steps:
+            do_nj(ctx, mon, pdm, spec, "edge counts of the tree", weighted=False, after_encode=rng.random() < 0.5)
+    if "upgma" in parts:
+        if upgma_admissible(spec):
+            do_upgma(ctx, mon, pdm, spec, tag)
+        if U.is_ultrametric(U.unit_copy(spec)):
+            do_upgma(ctx, mon, pdm, spec, "edge counts of the tree", weighted=False)
+
+
 # ------------------------------------------------------------------------------------------------- CSV
-def csv_roundtrip(ctx, mon, pdm, view, rng, variant, det, cluster=True):
-    """write_csv -> text -> from_csv, entries against the oracle; then the matrix read back is used."""
+IO_KINDS = ("stringio", "path", "file")
+IO_MOSTLY_MEMORY = ("stringio", "stringio", "stringio", "path", "file")     # outside the CSV cases
+IO_COMBOS = [(a, b) for a in IO_KINDS for b in IO_KINDS]
+CSV_VARIANTS = ("plain", "normalized", "steps", "tab", "semicolon", "rownames-only", "colnames-only")
+
+
+_SCRATCH = {"dir": None, "n": 0}
+
+
+def _scratch_file():
+    """a fresh file name inside this process's scratch directory (tempfile.mkdtemp, removed by shard_teardown / at exit)."""
+    if _SCRATCH["dir"] is None or not os.path.isdir(_SCRATCH["dir"]):
+        _SCRATCH["dir"] = tempfile.mkdtemp(prefix="vf-c14-")
+        atexit.register(shutil.rmtree, _SCRATCH["dir"], True)
+    _SCRATCH["n"] += 1
+    return os.path.join(_SCRATCH["dir"], "t%d.csv" % _SCRATCH["n"])
+
+
+def shard_teardown(ctx):
+    if _SCRATCH["dir"] is not None:
+        shutil.rmtree(_SCRATCH["dir"], ignore_errors=True)
+        _SCRATCH["dir"] = None
+
+
+def _unlink(path):
+    try:
+        os.unlink(path)
+    except OSError:
+        pass
+
+
+def _csv_write(ctx, pdm, sink, wkw, det):
+    """write_csv into a text buffer / a path / an open text file; returns the text written (None: failed, reported)."""
+    if sink == "stringio":
+        buf = io.StringIO(newline="")
+        ok, r = core.call(ctx, "write_csv[to text buffer]", pdm.write_csv, buf, detail=det, **wkw)
+        return buf.getvalue() if ok else None
+    path = _scratch_file()
+    try:
+        if sink == "path":
+            ok, r = core.call(ctx, "write_csv[to path]", pdm.write_csv, path, detail=det, **wkw)
+        else:
+            with open(path, "w", newline="") as f:
+                ok, r = core.call(ctx, "write_csv[to open file]", pdm.write_csv, f, detail=det, **wkw)
+        if not ok:
+            return None
+        with open(path, newline="") as f:
+            return f.read()
+    finally:
+        _unlink(path)
+
+
+def _csv_read(ctx, text, source, kw, det):
+    """from_csv from a text buffer / a path / an open text file holding exactly ``text``."""
     import dendropy
     P = dendropy.PhylogeneticDistanceMatrix
+    if source == "stringio":
+        return core.call(ctx, "from_csv[text buffer]", P.from_csv, io.StringIO(text, newline=""), detail=det, **kw)
+    path = _scratch_file()
+    try:
+        with open(path, "w", newline="") as f:
+            f.write(text)
+        if source == "path":
+            return core.call(ctx, "from_csv[path]", P.from_csv, path, detail=det, **kw)
+        with open(path, newline="") as f:
+            return core.call(ctx, "from_csv[open file]", P.from_csv, f, detail=det, **kw)
+    finally:
+        _unlink(path)
+
+
+def judge_read_matrix(ctx, p2, labels, table, given_ns, taxon_of, exact, scale, det, prefix, tag):
+    """a matrix read from a table: its taxa are the table's labels (the given namespace's own Taxon objects when one
+    was given) and every entry - both orders, diagonal included - is the table's.  Returns label -> Taxon or None."""
+    if given_ns is not None:
+        ctx.ev("csv-namespace-identity-judged")
+        if p2.taxon_namespace is not given_ns:
+            ctx.violation("%s|namespace-is-not-the-one-given" % prefix, "from_csv(taxon_namespace=ns) returned a matrix over another namespace", det)
+            return None
+    tx2 = dict((t.label, t) for t in p2.taxon_iter())
+    if sorted(tx2) != labels or (given_ns is not None and any(tx2[x] is not taxon_of[x] for x in labels)):
+        ctx.violation("%s|taxa-differ" % prefix, "matrix read maps %r, the table lists %r" % (sorted(tx2)[:8], labels[:8]), det)
+        return None
+    for a in labels:
+        for b in labels:
+            ctx.ev("csv-entry-judged")
+            try:
+                got = p2.patristic_distance(tx2[a], tx2[b])
+            except Exception as e:
+                ctx.violation("%s|entry-missing|%s" % (prefix, type(e).__name__), "no entry for a pair of taxa of the table", dict(det, pair=[a, b]))
+                return None
+            if not U.same(got, table[(a, b)], exact, scale):
+                ctx.violation(tag, "entry read %r, the table says %r" % (got, table[(a, b)]), dict(det, pair=[a, b]))
+                return None
+    return tx2
+
+
+def csv_roundtrip(ctx, mon, pdm, view, rng, variant, det, cluster=True, io_combo=None, harness=True):
+    """write_csv -> text (judged cell by cell) -> from_csv (judged entry by entry); sink and source are independent
+    dimensions (text buffer / path / open file); from_csv is also fed a table the harness wrote from the oracle;
+    then the matrix read back is used like any other (summaries, second write, NJ / UPGMA)."""
     labels = view.labels
     if len(labels) < 2:
+        ctx.note("csv-of-a-matrix-with-fewer-than-2-taxa-not-generated")
         return
+    if variant == "path":                     # older descriptors
+        variant, io_combo = "plain", ("path", "path")
+    sink, source = io_combo or (rng.choice(IO_MOSTLY_MEMORY), rng.choice(IO_MOSTLY_MEMORY))
     paths = ref.leaf_paths(view.spec)
     weighted = variant != "steps"
     norm = variant == "normalized"
-    if norm and not view.total:
+    fac = view.factor(weighted, norm)
+    if fac is None:
         ctx.note("normalisation-by-zero-tree-length-skipped")
         return
     wkw = {}
@@ -717,70 +1098,52 @@ def csv_roundtrip(ctx, mon, pdm, view, rng, variant, det, cluster=True):
         wkw["is_normalize_by_tree_size"] = False
     if not weighted:
         wkw["is_weighted_edge_distances"] = False
-    det = dict(det, csv_variant=variant)
-    tmpd = None
-    try:
-        if variant == "path":
-            tmpd = tempfile.mkdtemp(prefix="vf-c14-")
-            path = os.path.join(tmpd, "m.csv")
-            ok, r = core.call(ctx, "write_csv", pdm.write_csv, path, detail=det, **wkw)
-            if not ok:
-                return
-            with open(path, newline="") as f:
-                text = f.read()
-        else:
-            buf = io.StringIO()
-            ok, r = core.call(ctx, "write_csv", pdm.write_csv, buf, detail=det, **wkw)
-            if not ok:
-                return
-            text = buf.getvalue()
-    finally:
-        if tmpd:
-            shutil.rmtree(tmpd, ignore_errors=True)
-    # the text must be a (n+1) x (n+1) table under the requested delimiter
-    import csv as _csv
-    rows = [r for r in _csv.reader(io.StringIO(text), delimiter=wkw.get("delimiter", ",")) if r]
-    ctx.ev("csv-text-judged")
-    nrows = len(labels) + (1 if wkw.get("is_first_row_column_names", True) else 0)
-    ncols = len(labels) + (1 if wkw.get("is_first_column_row_names", True) else 0)
-    if len(rows) != nrows or any(len(r) != ncols for r in rows):
-        if "delimiter" in wkw and all(len(r) == 1 for r in rows):
-            ctx.violation("write_csv|requested-delimiter-not-used",
-                          "write_csv(delimiter=%r) wrote %r..." % (wkw["delimiter"], text[:40]), det)
-        else:
-            ctx.violation("write_csv|text-is-not-a-square-table", "%d rows of lengths %s for %d taxa" % (
-                len(rows), sorted(set(len(r) for r in rows)), len(labels)), det)
+    delim = wkw.get("delimiter", ",")
+    header = wkw.get("is_first_row_column_names", True)
+    rownames = wkw.get("is_first_column_row_names", True)
+    det = dict(det, csv_variant=variant, sink=sink, source=source)
+    table = C.oracle_table(paths, labels, weighted, fac)
+    ex = (view.exact or not weighted) and not norm
+    scale = view.vscale(weighted, norm)
+    tag = "%s%s" % ("weighted" if weighted else "steps", "|normalized" if norm else "")
+    text = _csv_write(ctx, pdm, sink, wkw, det)
+    if text is None:
+        return
+    ctx.ev("csv-route:%s->%s" % (sink, source))
+    if not C.judge_text(ctx, text, labels, table, header, rownames, delim, "delimiter" in wkw, ex, scale, tag, det):
         return
     same_ns = rng.random() < 0.5
     kw = dict(rkw)
     if same_ns:
         kw["taxon_namespace"] = pdm.taxon_namespace
-    ok, p2 = core.call(ctx, "from_csv", P.from_csv, io.StringIO(text), detail=det, **kw)
+    ok, p2 = _csv_read(ctx, text, source, kw, det)
     if not ok:
         return
-    tx2 = dict((t.label, t) for t in p2.taxon_iter())
-    if sorted(tx2) != labels or (same_ns and any(tx2[x] is not view.taxon[x] for x in labels)):
-        ctx.violation("from_csv|taxa-differ", "matrix read back maps %s" % sorted(tx2)[:10], det)
+    tx2 = judge_read_matrix(ctx, p2, labels, table, pdm.taxon_namespace if same_ns else None, view.taxon, ex, scale, det,
+                            "from_csv", "csv|roundtrip-entry-differs|%s" % variant)
+    if tx2 is None:
         return
-    fac = (view.total if weighted else float(view.n_nodes)) if norm else 1.0
-    want = dict((k, v[0 if weighted else 1] / fac) for k, v in paths.items())
-    ex = view.exact and not norm
-    for a in labels:
-        for b in labels:
-            ctx.ev("csv-entry-judged")
-            try:
-                got = p2.patristic_distance(tx2[a], tx2[b])
-            except Exception as e:
-                ctx.violation("from_csv|entry-missing|%s" % type(e).__name__, "no entry for a pair of taxa of the table", dict(det, pair=[a, b]))
-                return
-            w = 0 if a == b else want[(a, b)]
-            if not U.same(got, w, ex, view.total):
-                ctx.violation("csv|roundtrip-entry-differs|%s" % variant,
-                              "entry read back %r, oracle %r" % (got, w), dict(det, pair=[a, b]))
-                return
+    if harness:
+        # the reader on its own: a table written by the harness (CPython csv.writer) from the oracle, rows in another order
+        order = labels[:]
+        rng.shuffle(order)
+        text_h = C.harness_table(order, table, delim, header, rownames)
+        src_h = rng.choice(IO_KINDS if io_combo else IO_MOSTLY_MEMORY)
+        same_h = rng.random() < 0.5
+        kw_h = dict(rkw)
+        if same_h:
+            kw_h["taxon_namespace"] = pdm.taxon_namespace
+        det_h = dict(det, source=src_h, table="written by the harness")
+        ok, p4 = _csv_read(ctx, text_h, src_h, kw_h, det_h)
+        if ok:
+            ctx.ev("csv-harness-table-judged")
+            ctx.ev("csv-harness-table-source:%s" % src_h)
+            judge_read_matrix(ctx, p4, labels, table, pdm.taxon_namespace if same_h else None, view.taxon, ex, scale, det_h,
+                              "from_csv|harness-table", "from_csv|harness-table|entry-differs|%s" % variant)
+    want = dict((k, v) for k, v in table.items() if k[0] != k[1])
     # the matrix read back must be usable like the original: summaries over its entries, a second write
-    judge_summaries(ctx, p2, tx2, lambda wgt, nrm: want, labels, rng, ex, view.total, det, "csv-matrix",
-                    [(True, False)], 1)
+    judge_summaries(ctx, p2, tx2, lambda wgt: want, lambda wgt, nrm: 1.0, labels, rng, ex, lambda wgt, nrm: scale, det, "csv-matrix",
+                    [(True, False)], 3)
     try:
         got = sorted(p2.distances())
     except Exception as e:
@@ -789,33 +1152,45 @@ def csv_roundtrip(ctx, mon, pdm, view, rng, variant, det, cluster=True):
     if got is not None:
         ws = sorted(want[p] for p in itertools.combinations(labels, 2))
         ctx.ev("summary-judged")
-        if len(got) != len(ws) or any(not U.same(x, y, ex, view.total) for x, y in zip(got, ws)):
+        if len(got) != len(ws) or any(not U.same(x, y, ex, scale) for x, y in zip(got, ws)):
             ctx.violation("csv-matrix|distances-list-is-not-the-entries",
                           "distances() of the matrix read back returned %d values, it has %d distinct pairs" % (len(got), len(ws)), det)
-    buf2 = io.StringIO()
+    buf2 = io.StringIO(newline="")
     try:
         p2.write_csv(buf2, is_normalize_by_tree_size=False)
         text2 = buf2.getvalue()
     except core.CaseTimeout:
         raise
     except Exception as e:
-        ctx.violation("csv-matrix|write_csv|raises|%s" % type(e).__name__,
-                      "a matrix read from CSV cannot be written again: %s" % core.exc_brief(e), det)
+        # not a clause of the statement by itself: reported as what it is, an exception of a driven operation
+        ctx.unexpected("csv-matrix.write_csv", e, det)
         text2 = None
     if text2 is not None:
-        ok, p3 = core.call(ctx, "from_csv", P.from_csv, io.StringIO(text2), detail=det)
+        ok, p3 = _csv_read(ctx, text2, "stringio", {}, det)
         if ok:
             tx3 = dict((t.label, t) for t in p3.taxon_iter())
             ctx.ev("csv-second-generation-judged")
             for a, b in itertools.combinations(labels, 2):
-                if sorted(tx3) != labels or not U.same(p3.patristic_distance(tx3[a], tx3[b]), want[(a, b)], ex, view.total):
+                if sorted(tx3) != labels or not U.same(p3.patristic_distance(tx3[a], tx3[b]), want[(a, b)], ex, scale):
                     ctx.violation("csv|second-generation-entry-differs", "entry differs after two round trips", dict(det, pair=[a, b]))
                     break
-    if cluster and variant not in ("normalized", "steps"):
-        if nj_admissible(view.spec):
-            do_nj(ctx, mon, p2, view.spec, "matrix read back from CSV (%s)" % variant)
-        if upgma_admissible(view.spec):
-            do_upgma(ctx, mon, p2, view.spec, "matrix read back from CSV (%s)" % variant)
+    if cluster:
+        # NJ / UPGMA from the matrix read back: it holds the distances of S, of S with unit lengths ("steps"),
+        # or of S in the unit 'tree length' ("normalized")
+        E = None
+        if variant == "steps":
+            E = U.unit_copy(view.spec)
+        elif not U.has_negative(view.spec):
+            E = U.scaled_copy(view.spec, 1.0 / fac) if norm else view.spec
+        if E is None:
+            ctx.note("csv-matrix-of-a-tree-with-negative-lengths-not-clustered")
+            return
+        tagc = "matrix read back from CSV (%s)" % variant
+        if nj_admissible(E):
+            do_nj(ctx, mon, p2, E, tagc, after_encode=rng.random() < 0.5)
+            ctx.ev("cluster-from-csv-matrix:%s" % ("steps" if variant == "steps" else "normalized" if norm else "raw"))
+        if upgma_admissible(E):
+            do_upgma(ctx, mon, p2, E, tagc)
 
 
 # ------------------------------------------------------------------------------------------------- mrca workload
@@ -840,8 +1215,76 @@ def subsets_for(view, rng, exhaustive, k):
     return out
 
 
-def mrca_queries(ctx, tree, view, rng, exhaustive, k, refresh, absent=True):
-    """issue Tree.mrca through the three routes; the hook judges."""
+TAXA_KINDS = ("list", "list", "tuple", "set", "frozenset", "iterator", "generator", "dict-keys")
+LABEL_KINDS = ("list", "list", "tuple", "set", "iterator", "generator", "dict-keys", "other-case")
+
+
+def _container(kind, items):
+    items = list(items)
+    if kind in ("list", "other-case"):
+        return items
+    if kind == "tuple":
+        return tuple(items)
+    if kind == "set":
+        return set(items)
+    if kind == "frozenset":
+        return frozenset(items)
+    if kind == "iterator":
+        return iter(items)
+    if kind == "generator":
+        return (x for x in items)
+    if kind == "dict-keys":
+        return dict.fromkeys(items).keys()
+    raise ValueError(kind)
+
+
+def _other_case(ns, labels):
+    """the same labels in the other case, when the namespace matches labels case-insensitively (its default)
+    and that is unambiguous; None otherwise."""
+    if getattr(ns, "is_case_sensitive", True):
+        return None
+    out = [x.swapcase() for x in labels]
+    if any((not x.isascii()) or y == x for x, y in zip(labels, out)):
+        return None
+    return out
+
+
+def mrca_call(mon, tree, route, taxa, kind, kw):
+    """one Tree.mrca call; the hook judges, the side channel tells it which taxa the argument stands for."""
+    ns = tree.taxon_namespace
+    if route == "taxa":
+        arg = {"taxa": _container(kind, taxa)}
+    elif route == "taxon_labels":
+        labs = [t.label for t in taxa]
+        if kind == "other-case":
+            alt = _other_case(ns, labs)
+            if alt is None:
+                kind = "list"
+            else:
+                labs = alt
+        arg = {"taxon_labels": _container(kind, labs)}
+    else:
+        m = 0
+        for t in taxa:
+            m |= ns.taxon_bitmask(t)
+        arg = {"leafset_bitmask": m}
+        kind = "int"
+    mon.query = {"route": route, "taxa": list(taxa), "kind": kind}
+    try:
+        tree.mrca(**dict(arg, **kw))
+    except core.CaseTimeout:
+        raise
+    except Exception:
+        pass      # reported by the hook (every call made here is inside the judged domain)
+    finally:
+        mon.query = None
+
+
+ROUTES = ("taxa", "taxon_labels", "leafset_bitmask")
+
+
+def mrca_queries(ctx, mon, tree, view, rng, exhaustive, k, refresh, absent=True):
+    """issue Tree.mrca through the three routes and every kind of argument; the hook judges."""
     ns = tree.taxon_namespace
     kw = {"is_bipartitions_updated": False} if refresh else {}
     if refresh == "explicit-true":
@@ -849,36 +1292,17 @@ def mrca_queries(ctx, tree, view, rng, exhaustive, k, refresh, absent=True):
     for q in subsets_for(view, rng, exhaustive, k):
         rng.shuffle(q)
         taxa = [view.taxon[x] for x in q]
-        routes = ("taxa", "taxon_labels", "leafset_bitmask") if exhaustive else (rng.choice(("taxa", "taxon_labels", "leafset_bitmask")),)
+        routes = ROUTES if exhaustive else (rng.choice(ROUTES),)
         for route in routes:
-            try:
-                if route == "taxa":
-                    tree.mrca(taxa=rng.choice((list, tuple, set))(taxa), **kw)
-                elif route == "taxon_labels":
-                    tree.mrca(taxon_labels=list(q), **kw)
-                else:
-                    m = 0
-                    for t in taxa:
-                        m |= ns.taxon_bitmask(t)
-                    tree.mrca(leafset_bitmask=m, **kw)
-            except core.CaseTimeout:
-                raise
-            except Exception:
-                pass      # reported by the hook
+            kind = rng.choice(TAXA_KINDS if route == "taxa" else LABEL_KINDS)
+            mrca_call(mon, tree, route, taxa, kind, kw)
     if absent:
-        extra = [t for t in ns if t.label not in view.taxon]
+        extra = [t for t in ns if view.taxon.get(t.label) is not t]
         if extra:
             x = rng.choice(extra)
             q = [view.taxon[l] for l in rng.sample(view.labels, min(len(view.labels), rng.randint(0, 2)))] + [x]
-            try:
-                if rng.random() < 0.5:
-                    tree.mrca(taxa=q, **kw)
-                else:
-                    tree.mrca(taxon_labels=[t.label for t in q], **kw)
-            except core.CaseTimeout:
-                raise
-            except Exception:
-                pass
+            route = rng.choice(ROUTES)
+            mrca_call(mon, tree, route, q, rng.choice(TAXA_KINDS if route == "taxa" else LABEL_KINDS), kw)
 
 
 def live_spr(tree, rng):
@@ -907,15 +1331,57 @@ def live_spr(tree, rng):
     return False
 
 
+def live_leafset_change(tree, rng):
+    """change the LEAF SET of the live tree through the node API (any bipartition encoding becomes stale and
+    refers to another set of taxa): cut a leaf off, or hang a new leaf carrying a taxon that was not on the tree."""
+    import dendropy
+    spec, pairs = bridge.extract(tree, with_nodes=True)
+    ns = tree.taxon_namespace
+    on = set(id(nd.taxon) for s, nd in pairs if nd.taxon is not None)
+    nleaves = sum(1 for s, nd in pairs if not s[3])
+    cut = [nd for s, nd in pairs if not s[3] and nd._parent_node is not None and len(nd._parent_node._child_nodes) >= 2]
+    internal = [nd for s, nd in pairs if s[3]]
+    if rng.random() < 0.5 and cut and nleaves >= 3:
+        x = rng.choice(cut)
+        x._parent_node.remove_child(x)
+        return "cut"
+    if internal:
+        spare = [t for t in ns if id(t) not in on]
+        t = rng.choice(spare) if spare else ns.new_taxon(label="Ygraft%d" % len(ns))
+        rng.choice(internal).add_child(dendropy.Node(taxon=t, edge_length=rng.choice([None, 1, 2.5])))
+        return "graft"
+    return None
+
+
+def _encode(ctx, t, **flags):
+    """encode_bipartitions as a step of the history; a failure is not a clause of this property but the clauses that
+    depend on it cannot be decided: recorded and the case marked."""
+    try:
+        t.encode_bipartitions(**flags)
+        return True
+    except core.CaseTimeout:
+        raise
+    except Exception as e:
+        ctx.note("encode_bipartitions-raised-%s" % type(e).__name__)
+        ctx.mark_inconclusive("encode_bipartitions(%s) raised %s on a well-formed tree: common-ancestor clauses on a current "
+                              "encoding not decided for this tree" % (sorted(flags), core.exc_brief(e)))
+        return False
+
+
 # ------------------------------------------------------------------------------------------------- one tree, full battery
 def run_tree(ctx, mon, spec, rooted, rng, nscfg, exhaustive, parts, label):
     import dendropy
     from dendropy.calculate import treemeasure
+    from dendropy.calculate import phylogeneticdistance as pd
     labels = sorted(ref.leaf_taxa(spec))
     n = len(labels)
     det = {"tree": ref.to_newick(spec), "rooted_flag": rooted, "namespace": nscfg}
     if n >= 3 and any(nd[3] and nd is not spec for nd in ref.preorder(spec)):
         ctx.nontrivial((label, ref.canon(spec), rooted, nscfg, sorted(parts)))
+    if rooted is None:
+        ctx.ev("workload:rooting-unspecified")
+    if U.has_negative(spec):
+        ctx.ev("workload:negative-lengths")
 
     def fresh():
         return bridge.build_tree(spec, make_ns(labels, nscfg, random.Random(7)), rooted)
@@ -939,19 +1405,16 @@ def run_tree(ctx, mon, spec, rooted, rng, nscfg, exhaustive, parts, label):
         except Exception:
             pdm = None        # reported by the hook
         if pdm is not None and n >= 2:
-            judge_accessors(ctx, pdm, view, rng, det, 6 if exhaustive else 10)
-            judge_summaries(ctx, pdm, view.taxon, lambda w, nm: oracle_tables(view, w, nm), view.labels, rng, view.exact,
-                            view.total, det, "pdm", [(True, False), (False, False), (True, True), (False, True)],
+            judge_accessors(ctx, pdm, view, rng, det, 4 if exhaustive else 6)
+            judge_summaries(ctx, pdm, view.taxon, lambda w: oracle_tables(view, w), view.factor, view.labels, rng, view.exact,
+                            view.vscale, det, "pdm", [(True, False), (False, False), (True, True), (False, True)],
                             3 if exhaustive else 2)
-            if "nj" in parts and nj_admissible(spec):
-                do_nj(ctx, mon, pdm, spec, "matrix of the tree")
-                if rng.random() < (1.0 if exhaustive else 0.3):
-                    do_nj(ctx, mon, pdm, spec, "edge counts of the tree", weighted=False)
-            if "upgma" in parts and upgma_admissible(spec):
-                do_upgma(ctx, mon, pdm, spec, "matrix of the tree")
+            cluster_battery(ctx, mon, pdm, spec, rng, parts, "matrix of the tree", 1.0 if exhaustive else 0.3)
             if "csv" in parts:
-                for variant in parts["csv"]:
-                    csv_roundtrip(ctx, mon, pdm, view, rng, variant, det)
+                combos = parts.get("csv_io")
+                for i, variant in enumerate(parts["csv"]):
+                    csv_roundtrip(ctx, mon, pdm, view, rng, variant, det,
+                                  io_combo=tuple(combos[i % len(combos)]) if combos else None)
             if n >= 3 and rng.random() < (0.5 if exhaustive else 0.3):
                 # re-compile the SAME matrix object from another tree over the same namespace: nothing of the
                 # first tree may survive (the hook judges the mapped taxa and every entry against the new tree)
@@ -963,39 +1426,37 @@ def run_tree(ctx, mon, spec, rooted, rng, nscfg, exhaustive, parts, label):
                 except core.CaseTimeout:
                     raise
                 except Exception:
-                    pass
-    # ---- 2. node distance matrix
+                    pass      # reported by the hook
+    # ---- 2. node distance matrix (both constructors)
     if "ndm" in parts:
         try:
-            tree.node_distance_matrix()
+            if rng.random() < 0.5:
+                tree.node_distance_matrix()
+            else:
+                pd.NodeDistanceMatrix.from_tree(tree)
         except core.CaseTimeout:
             raise
         except Exception:
-            pass
+            pass              # reported by the hook
     # ---- 3. common ancestors: refresh on a never-encoded tree, then current encodings, then stale + refresh
     if "mrca" in parts and n >= 1:
         k = 8 if ctx.tier == "quick" else 14
         t = fresh()
-        mrca_queries(ctx, t, View(t), rng, exhaustive, k, refresh=True)
+        mrca_queries(ctx, mon, t, View(t), rng, exhaustive, k, refresh=True)
         t = fresh()
-        mrca_queries(ctx, t, View(t), rng, False, 2, refresh=False, absent=False)     # never encoded, default: recorded only
+        mrca_queries(ctx, mon, t, View(t), rng, False, 2, refresh=False, absent=False)     # never encoded, default: recorded only
         for flags in ({}, {"suppress_unifurcations": False, "collapse_unrooted_basal_bifurcation": False},
                       {"suppress_unifurcations": False}):
             if not exhaustive and rng.random() < 0.5:
                 continue
             t = fresh()
-            try:
-                t.encode_bipartitions(**flags)
-            except core.CaseTimeout:
-                raise
-            except Exception as e:
-                ctx.note("encode_bipartitions-raised-%s" % type(e).__name__)
+            if not _encode(ctx, t, **flags):
                 continue
-            mrca_queries(ctx, t, View(t), rng, exhaustive, k, refresh=rng.choice([False, False, "explicit-true"]))
+            mrca_queries(ctx, mon, t, View(t), rng, exhaustive, k, refresh=rng.choice([False, False, "explicit-true"]))
             if live_spr(t, rng):
                 v2 = View(t)
-                mrca_queries(ctx, t, v2, rng, False, 2, refresh=False, absent=False)  # stale, default: recorded only
-                mrca_queries(ctx, t, v2, rng, False, k, refresh=True)
+                mrca_queries(ctx, mon, t, v2, rng, False, 2, refresh=False, absent=False)  # stale, default: recorded only
+                mrca_queries(ctx, mon, t, v2, rng, False, k, refresh=True)
                 # the matrix of the mutated tree (hook re-extracts): hidden state must not leak into it
                 if rng.random() < 0.5:
                     try:
@@ -1004,6 +1465,17 @@ def run_tree(ctx, mon, spec, rooted, rng, nscfg, exhaustive, parts, label):
                         raise
                     except Exception:
                         pass
+            if rng.random() < 0.4:
+                # the leaf set itself changes under a (now stale) encoding; a refresh must bring the answer back
+                how = live_leafset_change(t, rng)
+                if how:
+                    v3 = View(t)
+                    if v3.problem:
+                        ctx.mark_inconclusive("harness: leaf-set change left an inadmissible tree (%s)" % v3.problem)
+                    else:
+                        ctx.ev("mrca-after-leafset-change:%s" % how)
+                        mrca_queries(ctx, mon, t, v3, rng, False, 2, refresh=False, absent=False)   # stale, default: recorded only
+                        mrca_queries(ctx, mon, t, v3, rng, False, k // 2, refresh=True)
     # ---- 4. treemeasure.patristic_distance (mutates unrooted trees: fresh tree per group of calls)
     if "tm" in parts and n >= 1:
         t = fresh()
@@ -1021,15 +1493,9 @@ def run_tree(ctx, mon, spec, rooted, rng, nscfg, exhaustive, parts, label):
             except core.CaseTimeout:
                 raise
             except Exception:
-                pass
+                pass          # reported by the hook
         t = fresh()
-        try:
-            t.encode_bipartitions(suppress_unifurcations=False)
-        except core.CaseTimeout:
-            raise
-        except Exception:
-            t = None
-        if t is not None:
+        if _encode(ctx, t, suppress_unifurcations=False):
             v = View(t)
             for a, b in prs[:4]:
                 if a in v.taxon and b in v.taxon:
@@ -1049,7 +1515,7 @@ def note_path_edges(ctx, pdm, view, rng):
     try:
         es = pdm.path_edges(view.taxon[a], view.taxon[b])
         L, E, N = ref.leaf_paths(view.spec)[(a, b)]
-        ok = len(es) == E and U.close(sum((e.length or 0) for e in es), L, view.total)
+        ok = len(es) == E and U.close(sum((e.length or 0) for e in es), L, view.scale)
         ctx.note("path_edges-%s" % ("consistent" if ok else "inconsistent"))
     except Exception as e:
         ctx.note("path_edges-raised-%s" % type(e).__name__)
@@ -1077,6 +1543,17 @@ DIRECTED = [
      "parts": ["pdm", "nj", "ndm", "mrca", "tm"], "csv": ["plain", "normalized", "steps"]},
     {"kind": "spec", "name": "unary-chain", "spec": _nd([_nd([_nd([_lf("a", 1)], 2), _lf("b", 2)], 1), _nd([_lf("c", 4)], None)]), "rooted": True,
      "parts": ["pdm", "nj", "ndm", "mrca", "tm"], "csv": ["plain"]},
+    # every leaf two edges below the root, lengths not clock-like: UPGMA on the EDGE COUNTS must give the tree with unit
+    # lengths (on the patristic distances it is outside the statement and is not called)
+    {"kind": "spec", "name": "upgma-on-edge-counts", "spec": _nd([_nd([_lf("a", 1), _lf("b", 3)], 2), _nd([_lf("c", 2), _lf("d", 5)], 1)]),
+     "rooted": True, "parts": ["pdm", "nj", "upgma"]},
+    # labels that a delimited table must quote, through every sink x source combination
+    {"kind": "spec", "name": "csv-labels-and-routes",
+     "spec": _nd([_nd([_lf("a,b", 1), _lf("c;d", 2)], 1), _lf("i\nj", 4), _lf("\"q", 3), _lf("e\tf", 2)]), "rooted": True,
+     "parts": ["pdm"], "csv": ["plain", "semicolon", "tab", "plain", "rownames-only", "colnames-only", "plain", "steps", "normalized"],
+     "csv_io": [list(x) for x in IO_COMBOS]},
+    {"kind": "spec", "name": "negative-lengths", "spec": _nd([_nd([_lf("a", -1), _lf("b", 2)], -2), _lf("c", 3), _lf("d", -0.5)]), "rooted": None,
+     "parts": ["pdm", "ndm", "mrca", "tm"]},
 ]
 
 
@@ -1087,16 +1564,19 @@ def cases(tier, seed):
     for n in range(1, nmax + 1):
         shapes = gen.all_shapes(n)
         for idx in range(len(shapes)):
-            for rooted in (True, False):
-                for pi, pat in enumerate(PATTERNS):
-                    if n == 5 and (idx + pi + seed) % 3 != 0:
-                        continue
+            for pi, pat in enumerate(PATTERNS):
+                if n == 5 and (idx + pi + seed) % 3 != 0:
+                    continue
+                for rooted in (True, False, None):
+                    if rooted is None and (idx + pi + seed) % 3 != 1:
+                        continue          # rooting left unspecified (Tree() default): a third of the combinations
                     yield {"kind": "shape", "n": n, "idx": idx, "rooted": rooted, "pat": pat, "seed": seed}
     if tier == "quick":
         shapes = gen.all_shapes(5)
         for idx in range(len(shapes)):
             if (idx + seed) % 2 == 0:
-                yield {"kind": "shape", "n": 5, "idx": idx, "rooted": bool(idx % 2), "pat": PATTERNS[(idx // 5) % len(PATTERNS)], "seed": seed}
+                yield {"kind": "shape", "n": 5, "idx": idx, "rooted": (True, False, None, True, False)[idx % 5],
+                       "pat": PATTERNS[(idx // 5) % len(PATTERNS)], "seed": seed}
     nrand, nnj, nup, ncsv = (5000, 4000, 2000, 1000) if tier == "quick" else (16000, 16000, 7000, 4000)
     rest = []
     for kind, k in (("random", nrand), ("nj", nnj), ("upgma", nup), ("csv", ncsv)):
@@ -1123,11 +1603,17 @@ def run_case(case, ctx):
             _run(case, ctx, mon, rng)
 
 
-def _parts(names, csv=None):
+def _parts(names, csv=None, csv_io=None):
     p = dict((k, True) for k in names)
     if csv:
         p["csv"] = list(csv)
+    if csv_io:
+        p["csv_io"] = list(csv_io)
     return p
+
+
+def _rooting(rng):
+    return rng.choice((True, True, False, False, None))
 
 
 def _run(case, ctx, mon, rng):
@@ -1135,29 +1621,43 @@ def _run(case, ctx, mon, rng):
     quick = ctx.tier == "quick"
     if kind == "spec":
         spec = ref.copy(_listify(case["spec"]))
-        run_tree(ctx, mon, spec, case["rooted"], rng, "exact", True, _parts(case["parts"], case.get("csv")), case["name"])
+        run_tree(ctx, mon, spec, case["rooted"], rng, "exact", True, _parts(case["parts"], case.get("csv"), case.get("csv_io")), case["name"])
         ctx.sample({"kind": "directed", "name": case["name"], "tree": ref.to_newick(spec), "rooted": case["rooted"]})
     elif kind == "shape":
         spec = gen.shape_to_spec(gen.all_shapes(case["n"])[case["idx"]])
-        if rng.random() < 0.3:
+        r = rng.random()
+        if r < 0.2:
+            spec = U.pad_to_equal_depth(spec)          # all leaves equally many edges below the root: UPGMA on edge counts applies
+        elif r < 0.45:
             spec = gen.insert_unary(spec, rng, 0.3)
         apply_pattern(spec, rng, case["pat"])
-        csvv = [rng.choice(("plain", "normalized", "steps", "path"))] if rng.random() < 0.5 else None
+        maybe_rescale(ctx, spec, rng)
+        csvv = [rng.choice(CSV_VARIANTS)] if rng.random() < 0.5 else None
+        if csvv and rng.random() < 0.4:
+            spec, _ = C.relabel(spec, rng)
+            ctx.ev("workload:odd-labels")
         run_tree(ctx, mon, spec, case["rooted"], rng, rng.choice(NSCFG), True,
                  _parts(["pdm", "ndm", "mrca", "tm", "nj", "upgma"], csvv), "shape")
         if case["idx"] == 1 and case["pat"] == "ints" and case["n"] == 4:
             ctx.sample({"kind": "shape", "tree": ref.to_newick(spec), "rooted": case["rooted"],
-                        "battery": "matrix (all entries), summaries, NDM, mrca (all subsets x 3 routes x modes), patristic_distance (all pairs), NJ, UPGMA if ultrametric"})
+                        "battery": "matrix (all entries), accessors x options, summaries, NDM, mrca (all subsets x 3 routes x modes), "
+                                   "patristic_distance (all pairs), NJ (distances and edge counts), UPGMA where ultrametric"})
     elif kind == "random":
         n = rng.choice([2, 3, 5, 8, 12, 15]) if quick else rng.choice([2, 3, 6, 10, 20, 40, 60, 80])
         spec = gen.random_spec(rng, n, p_poly=rng.choice([0, 0.3, 0.6]), p_unary=rng.choice([0, 0, 0.15]),
                                shape=rng.choice([None, None, None, "caterpillar", "star", "balanced"]))
+        if rng.random() < 0.1:
+            spec = U.pad_to_equal_depth(spec)
         apply_pattern(spec, rng, rng.choice(PATTERNS))
-        rooted = rng.random() < 0.5
+        maybe_rescale(ctx, spec, rng)
+        rooted = _rooting(rng)
         names = ["pdm", "mrca", "tm", "nj", "upgma"]
         if n <= 30:
             names.append("ndm")
-        csvv = [rng.choice(("plain", "normalized", "steps"))] if (n <= 20 and rng.random() < 0.3) else None
+        csvv = [rng.choice(CSV_VARIANTS)] if (n <= 20 and rng.random() < 0.3) else None
+        if csvv and rng.random() < 0.4:
+            spec, _ = C.relabel(spec, rng)
+            ctx.ev("workload:odd-labels")
         run_tree(ctx, mon, spec, rooted, rng, rng.choice(NSCFG), False, _parts(names, csvv), "random")
         if case["i"] < 2:
             ctx.sample({"kind": "random", "tree": ref.to_newick(spec), "rooted": rooted})
@@ -1169,8 +1669,14 @@ def _run(case, ctx, mon, rng):
         spec = gen.random_spec(rng, n, p_poly=rng.choice([0, 0, 0.3, 0.6]), p_unary=rng.choice([0, 0, 0.1]),
                                shape=rng.choice([None, None, None, "caterpillar", "balanced", "star"]))
         dy = rng.random() < 0.5
-        rooted = rng.random() < 0.5
-        if kind == "upgma" or (kind == "csv" and rng.random() < 0.4):
+        rooted = _rooting(rng)
+        equal_depth = kind == "upgma" and rng.random() < 0.3
+        if equal_depth:
+            # every leaf equally many edges below the root but lengths that are NOT clock-like: the two values of
+            # is_weighted_edge_distances give different matrices, only the edge counts are ultrametric
+            spec = U.pad_to_equal_depth(spec)
+            U.positive_lengths(spec, rng, dy)
+        elif kind == "upgma" or (kind == "csv" and rng.random() < 0.4):
             gen.ultrametric_lengths(spec, rng, dyadic=dy)
             if rng.random() < 0.25:
                 # some zero-height steps: ultrametric tree with zero-length internal edges (= polytomy)
@@ -1179,33 +1685,40 @@ def _run(case, ctx, mon, rng):
                         for c in nd[3]:
                             c[2] = c[2] + nd[2]
                         nd[2] = 0.0 if not dy else 0
+            if rng.random() < 0.25:
+                # some cherries of height zero: taxa at distance exactly 0 (the smallest entry of the matrix is 0),
+                # still an ultrametric tree
+                for nd in ref.preorder(spec):
+                    if nd is not spec and nd[3] and all(not c[3] for c in nd[3]) and rng.random() < 0.5:
+                        nd[2] = nd[2] + nd[3][0][2]
+                        for c in nd[3]:
+                            c[2] = 0.0 if not dy else 0
+                ctx.ev("workload:ultrametric-with-zero-height-cherries")
         else:
             U.positive_lengths(spec, rng, dy)
             if rng.random() < 0.3:
                 U.zero_some_pendants(spec, rng)
+        maybe_rescale(ctx, spec, rng)
         if kind == "csv":
-            variants = rng.sample(["plain", "normalized", "steps", "tab", "semicolon", "path", "rownames-only", "colnames-only"], 2)
-            run_tree(ctx, mon, spec, rooted, rng, rng.choice(NSCFG), False, _parts(["pdm"], variants), "csv")
+            variants = rng.sample(CSV_VARIANTS, 2)
+            i = case["i"]
+            combos = [list(IO_COMBOS[(2 * i) % len(IO_COMBOS)]), list(IO_COMBOS[(2 * i + 1) % len(IO_COMBOS)])]
+            if rng.random() < 0.6:
+                spec, _ = C.relabel(spec, rng)
+                ctx.ev("workload:odd-labels")
+            run_tree(ctx, mon, spec, rooted, rng, rng.choice(NSCFG), False, _parts(["pdm"], variants, combos), "csv")
         else:
-            import dendropy
             tree = bridge.build_tree(spec, make_ns(sorted(ref.leaf_taxa(spec)), rng.choice(NSCFG), rng), rooted)
             try:
                 pdm = tree.phylogenetic_distance_matrix()
             except core.CaseTimeout:
                 raise
             except Exception:
-                return
+                return            # reported by the hook
             if n >= 3:
                 ctx.nontrivial((kind, ref.canon(spec), rooted))
-            if kind == "nj":
-                do_nj(ctx, mon, pdm, spec, "matrix of a random tree with positive lengths")
-                if rng.random() < 0.3:
-                    do_nj(ctx, mon, pdm, spec, "edge counts of the tree", weighted=False)
-                if U.is_ultrametric(spec):
-                    do_upgma(ctx, mon, pdm, spec, "matrix of the tree")
-            else:
-                do_upgma(ctx, mon, pdm, spec, "matrix of a random ultrametric tree")
-                do_nj(ctx, mon, pdm, spec, "matrix of a random ultrametric tree")
+            tag = "matrix of a random %s tree" % ("equal-depth" if equal_depth else "ultrametric" if kind == "upgma" else "positive-length")
+            cluster_battery(ctx, mon, pdm, spec, rng, {"nj": True, "upgma": True}, tag, 0.3)
             if case["i"] < 2:
                 ctx.sample({"kind": kind, "generating_tree": ref.to_newick(spec)})
     else:
